@@ -27,7 +27,7 @@ OPTS = [
     for indent in (4, 2, "\t")
     for desc in (True, False)
     for intro in (False, True)
-    for custom in (False, True, ("tag",))
+    for custom in (False, True, ("tag",), ("deprecated", "tag"))
 ]
 
 
@@ -202,7 +202,7 @@ def evidence_meta():
         "rule": (
             "one case = one process lifetime (fresh fork) running 3..30 "
             "print / roundtrip / unrelated-activity operations over a pool "
-            "of 9 schemas x 36 option sets; every print is compared with the "
+            "of 9 schemas x 48 option sets; every print is compared with the "
             "text a pristine process produces for the same (schema, options); "
             "distinct = distinct operation sequence; non-trivial = length >= 3 "
             "with >= 2 operation kinds"),
